@@ -33,5 +33,7 @@ def gen(tier, rng):
         yield nodegen.stale_attempt_script(rng, "stale-attempt-tap", 0, 62, mode="switch", dev="tap")
     yield nodegen.healing_script(rng, "heal-asym-12", 2, pt=60, chaos=100, asym=(1, 2))
     yield nodegen.forge_script(rng, "forged-seals", rng.choice([1, 2, 3]))
+    # replays of genuine payload after key rotations: every key slot's window keeps moving with the ticks, a datagram replayed two or more ticks late is dead
+    yield nodegen.long_session_script(rng, "replay-after-rotation", 400, drop_at=(), replay_age=(2, 5, 30))
     for i in range(20 if thorough else 3):
         yield nodegen.attack_script(rng, "attack-%d" % i, rng.choice([2, 3]), 14, long_gap=rng.choice([30, 61, 121]))
